@@ -261,7 +261,7 @@ Ltac ev :=
        map concat lookup_var set_var str_eqb N.eqb Pos.eqb andb app snd fst];
   rewrite ?app_nil_r, ?join_single.
 
-
+(* evaluate closed subterms only *)
 Ltac compute_closed :=
   repeat match goal with
   | |- context [split_list ?x] =>
@@ -287,8 +287,6 @@ Ltac fatal_true :=
         | apply fatal_mode_skip; fatal_true
         | apply fatal_mode_app; fatal_true ].
 
-
-
 Lemma first_command_hit : forall c r,
   str_eqb c (s"COMMAND") = true -> first_command (c :: r) = Some (take_command r).
 Proof. intros c r H. cbn [first_command]. rewrite H. reflexivity. Qed.
@@ -312,19 +310,18 @@ Ltac prefix_of t :=
   | _ => constr:(@nil char)
   end.
 
+(* split_list (c1 :: .. :: cn :: semi ++ join semi l)  =  [c1; ..; cn] :: l *)
 Ltac split_opts :=
-  first
-  [ match goal with
-    | |- context [split_list ?t] =>
-        lazymatch t with
-        | context [join semi ?l] =>
-            let x := prefix_of t in
-            replace (split_list t) with (x :: l)
-              by (symmetry; apply (split_list_cons_join x l);
-                  solve [assumption | vm_compute; reflexivity])
-        end
-    end ].
-
+  match goal with
+  | |- context [split_list ?t] =>
+      lazymatch t with
+      | context [join semi ?l] =>
+          let x := prefix_of t in
+          replace (split_list t) with (x :: l)
+            by (symmetry; apply (split_list_cons_join x l);
+                solve [assumption | vm_compute; reflexivity])
+      end
+  end.
 
 (* The proof evaluates the generated body statement by statement; only closed subterms are
    computed, the open ones are rewritten with M1/M2 and the keyword lemmas. *)
@@ -432,6 +429,18 @@ Example gen_rst_list_flattening_refuted_semicolon :
      <> expected_argv ex_isd (s"cminx") (s"/src") (s"/out") [s"-p"; s"a;b"].
 Proof. vm_compute. repeat split. discriminate. Qed.
 
+(* so the plainness hypothesis of gen_rst_launch cannot be dropped *)
+Example gen_rst_list_flattening_refuted :
+  exists extra,
+    forallb arg_plain extra = false
+    /\ forallb not_kw (s"cminx" :: s"/src" :: s"/out" :: extra) = true
+    /\ call ex_isd gen_rst_def ex_globals (s"/src" :: s"/out" :: extra)
+       <> [(expected_argv ex_isd (s"cminx") (s"/src") (s"/out") extra, true)].
+Proof.
+  exists [s"-p"; s"a;b"]. split; [reflexivity|]. split; [reflexivity|].
+  vm_compute. discriminate.
+Qed.
+
 (* an unbalanced bracket glues the following arguments together *)
 Example gen_rst_list_flattening_refuted_bracket :
   arg_plain (s"a[") = false
@@ -455,13 +464,14 @@ Proof. vm_compute. repeat split. Qed.
    parse_num_dec_of_nat         (M2)
    gen_rst_launch               (M3)  gen_rst_launch_expected, gen_rst_launch_nonvacuous
    gen_rst_failure_is_fatal     (M4)
-   gen_rst_list_flattening_refuted_empty / _semicolon / _bracket, gen_rst_keyword_argument_refuted (M5)
+   gen_rst_list_flattening_refuted, gen_rst_list_flattening_refuted_empty / _semicolon / _bracket, gen_rst_keyword_argument_refuted (M5)
 *)
 Print Assumptions split_list_join.
 Print Assumptions parse_num_dec_of_nat.
 Print Assumptions gen_rst_launch.
 Print Assumptions gen_rst_launch_expected.
 Print Assumptions gen_rst_failure_is_fatal.
+Print Assumptions gen_rst_list_flattening_refuted.
 Print Assumptions gen_rst_list_flattening_refuted_empty.
 Print Assumptions gen_rst_list_flattening_refuted_semicolon.
 Print Assumptions gen_rst_keyword_argument_refuted.
